@@ -57,8 +57,12 @@ Definition sync_scale (n : Z) (factor : spec_float) : Z :=
     an oversized-message error are handled by the caller in this model
     ([XOther] below); here [maxLen] / [msgLen] are e.MaximumLength() and
     e.RejectedLength().  [None] = the function returns an error. *)
+(* if pods+ctrs <= minObjsPerMsg { return error }; the operator is regenerated from the source *)
+Definition gives_up (n : Z) : bool :=
+  if sync_giveup_le then n <=? min_objs_per_msg else n <? min_objs_per_msg.
+
 Definition recalc (pods ctrs maxLen msgLen : Z) : option (Z * Z) :=
-  if pods + ctrs <=? min_objs_per_msg then None
+  if gives_up (pods + ctrs) then None
   else if (msgLen =? 0) || (maxLen =? 0) || (msgLen <=? maxLen) then None
   else
     let factor := sync_factor maxLen msgLen in
